@@ -107,6 +107,20 @@ Definition model_alias (copy : bool) (arrs : list (mat Z)) (ls : list nat) (h' :
 Definition tk_alias_okb (copy : bool) (before after : list (mat Z)) (core core_after : tensor Z) (shared : list bool) (core_shared list_same : bool) : bool :=
   list_eqb zmat_eqb before after && zt_eqb core core_after &&
   (if copy then negb (existsb (fun b => b) shared) && negb core_shared && list_same else true).
+(* round 6: the same on Q (cp_normalize), object methods, item assignment *)
+Definition heap0q (arrs : list (mat Q)) (ls : list nat) (w : option nat) (is_class : bool) : heap (F:=Q) * href :=
+  if is_class then
+    (mk_heap arrs [ls] [mk_cell (cp_shape (map (fun l => nth l arrs []) ls)) (match w with Some l => l | None => 0%nat end) 0%nat], RObject 0%nat)
+  else (mk_heap arrs [ls] [], RTuple w 0%nat).
+Definition qmat_same : mat Q -> mat Q -> bool := list_eqb (list_eqb Qeq_bool).
+(* an all-fresh answer: the caller's arrays and list untouched, no memory shared *)
+Definition fresh_okq (before after : list (mat Q)) (shared : list bool) (list_same : bool) : bool :=
+  list_eqb qmat_same before after && negb (existsb (fun b => b) shared) && list_same && Nat.eqb (length shared) (length before).
+Definition qobj_close (o : cp_obj (F:=Q)) (e : list nat * (list Q * list (mat Q))) : bool :=
+  nat_list_eqb (cpo_shape o) (fst e) && qcp_close (cpo_w o, cpo_fs o) (snd e).
+Definition owned_any {F} (h' : heap (F:=F)) (objs : list nat) (n : nat) : list bool :=
+  map (fun i => existsb (fun o => existsb (Nat.eqb i) (owned h' o)) objs) (seq 0%nat n).
+
 Inductive body :=
 | ZDense (w : list Z) (fs : list (mat Z)) (expected : tensor Z)
 | ZFlip (w : list Z) (fs : list (mat Z)) (mode : nat) (expected : res (list Z * list (mat Z)))
@@ -149,6 +163,14 @@ Inductive body :=
            (expected : res (list (list nat * (list Z * list (mat Z))))) (after : list (mat Z)) (shared : list bool) (list_same : bool)
 | ZTkHeap (core : tensor Z) (arrs : list (mat Z)) (ls : list nat) (copy : bool) (x : operand (F:=Z)) (mode : nat) (keep_dim : bool)
           (expected : res (tensor Z * list (mat Z))) (after : list (mat Z)) (core_after : tensor Z) (shared : list bool) (core_shared list_same : bool)
+| ZHeapFlip (arrs : list (mat Z)) (ls : list nat) (w : option nat) (is_class : bool) (mode : nat)
+            (expected : res (list nat * (list Z * list (mat Z)))) (after : list (mat Z)) (shared : list bool) (list_same : bool)
+| ZHeapPerm (p : list nat) (arrs : list (mat Z)) (ls : list nat) (w : nat)
+            (expected : res (list nat * (list Z * list (mat Z)))) (after : list (mat Z)) (shared : list bool) (list_same : bool)
+| QHeapNorm (tape : list (list Q)) (arrs : list (mat Q)) (ls : list nat) (w : option nat) (is_class : bool) (meth : nat)
+            (expected : res (list nat * (list Q * list (mat Q)))) (after : list (mat Q)) (shared : list bool) (list_same self_is_result : bool)
+| ZHeapStale (inplace : bool) (arrs : list (mat Z)) (ls newls : list nat) (w : nat) (copy : bool) (x : operand (F:=Z)) (mode : nat) (keep_dim : bool)
+             (expected : res (list nat * (list Z * list (mat Z))))
 | QAlign (norm_t : bool) (rw : list Q) (rfs : list (mat Q)) (tw : list Q) (tfs : list (mat Q)) (tA tB : list (list Q)) (perm : list nat).
 
 Definition agree_body (b : body) : bool :=
@@ -244,6 +266,51 @@ Definition agree_body (b : body) : bool :=
                                  (map (fun i => existsb (Nat.eqb i) (tlst th' fl')) (seq 0 (length arrs)))
                                  (Nat.eqb cl' 0) (nat_list_eqb (tlst th' 0) ls))
                    (tk_alias_okb cp arrs after core core_after shared core_shared same)
+      | Err, Err => true
+      | _, _ => false
+      end
+  | ZHeapFlip arrs ls w cl m e after shared same =>
+      let (h0, r) := heap0 arrs ls w cl in
+      match cp_flip_sign_h Zops (col_sum Zops) h0 r m, e with
+      | Ok (h', o), Ok e' =>
+          obj_eqb zcp_eqb (read_obj h' o) e' &&
+          Bool.eqb (alias_okb true arrs (firstn (length arrs) (h_arr h')) (owned_any h' [o] (length arrs)) (nat_list_eqb (lst h' 0) ls))
+                   (alias_okb true arrs after shared same)
+      | Err, Err => true
+      | _, _ => false
+      end
+  | ZHeapPerm p arrs ls w e after shared same =>
+      let (h0, r) := heap0 arrs ls (Some w) true in
+      match cp_permute_h Zops p h0 r, e with
+      | Ok (h', o), Ok e' =>
+          obj_eqb zcp_eqb (read_obj h' o) e' &&
+          Bool.eqb (alias_okb true arrs (firstn (length arrs) (h_arr h')) (owned_any h' [o] (length arrs)) (nat_list_eqb (lst h' 0) ls))
+                   (alias_okb true arrs after shared same)
+      | Err, Err => true
+      | _, _ => false
+      end
+  | QHeapNorm tape arrs ls w cl meth e after shared same self_res =>
+      (* meth 0: cp_normalize(operand); 1: obj.normalize(inplace=True); 2: obj.normalize(inplace=False) *)
+      let (h0, r) := heap0q arrs ls w cl in
+      let run := match meth with
+                 | 0%nat => cp_normalize_h Qops tape h0 r
+                 | 1%nat => cp_normalize_method_h Qops tape h0 0%nat true
+                 | _ => cp_normalize_method_h Qops tape h0 0%nat false
+                 end in
+      match run, e with
+      | Ok (h', o), Ok e' =>
+          qobj_close (read_obj h' o) e' &&
+          Bool.eqb (fresh_okq arrs (firstn (length arrs) (h_arr h')) (owned_any h' [o] (length arrs)) (nat_list_eqb (lst h' 0) ls))
+                   (fresh_okq arrs after shared same) &&
+          Bool.eqb (match meth with 0%nat => false | _ => Nat.eqb o 0%nat end) self_res
+      | Err, Err => true
+      | _, _ => false
+      end
+  | ZHeapStale inplace arrs ls newls w cp x m kd e =>
+      (* obj[1] = <another list of factors> (the shape attribute stays), then a mode product on the object *)
+      let h0 := mk_heap arrs [ls; newls] [mk_cell (cp_shape (map (fun l => nth l arrs []) ls)) w 0%nat] in
+      match rbind (setitem_h h0 0%nat 1%nat 1%nat) (fun h1 => cp_mode_dot_h_src Zops inplace h1 (RObject 0%nat) cp x m kd), e with
+      | Ok (h', o), Ok e' => obj_eqb zcp_dense_eqb (read_obj h' o) e'
       | Err, Err => true
       | _, _ => false
       end
